@@ -104,6 +104,7 @@ func genDispatch(c *ctx) string {
 	b.WriteString("def schemaDuringScan : Bool := " + schemaRollbackForm(c) + "\n")
 	lnc, su, sbe := replaceArgVarsForms(c)
 	b.WriteString("def objectUnchecked : Bool := " + objectArmForm(c) + "\n")
+	b.WriteString("def argsInPlace : Bool := " + argsInPlaceForm(c) + "\n")
 	b.WriteString("def inputDefaultsRaw : Bool := " + inputValidateForm(c) + "\n")
 	b.WriteString("def listNotCoerced : Bool := " + lnc + "\n")
 	b.WriteString("def symbolUnchecked : Bool := " + su + "\n")
@@ -151,6 +152,8 @@ func replaceArgVarsForms(c *ctx) (listNotCoerced, symbolUnchecked, symbolBaseEnu
 					listNotCoerced = "true"
 				case `var mt Type ; lt, _ := at.(*List) ; if nn, _ := at.(*NonNull); nn != nil { lt, _ = nn.Base.(*List) } ; if lt != nil { mt = lt.Base } ; ` + loop + ` ; if lt == nil { ` + coerce + ` }`:
 					listNotCoerced = "false"
+				case `var mt Type ; lt, _ := at.(*List) ; if nn, _ := at.(*NonNull); nn != nil { lt, _ = nn.Base.(*List) } ; if lt != nil { mt = lt.Base } ; cp := make([]interface{}, len(tv)) ; for i, v := range tv { cp[i], ea2 = root.replaceArgVars(vars, v, mt) ea = append(ea, ea2...) } ; val = cp ; if lt == nil { ` + coerce + ` }`:
+					listNotCoerced = "false" // and the literal is copied (D25 repaired: see argsInPlace)
 				}
 			case "Symbol":
 				const member = `if _, has := et.values.dict[string(tv)]; !has { ea = append(ea, resWarnp(nil, "%s is not a valid enum value in %s", tv, et.N)) }`
@@ -342,6 +345,8 @@ func objectArmForm(c *ctx) string {
 				res = "true"
 			case `it, _ := at.(*Input) ; if nn, _ := at.(*NonNull); nn != nil { it, _ = nn.Base.(*Input) } ; if it != nil { ` + inner + ` } else if ic, _ := at.(InCoercer); ic != nil { ` + coerce + ` }`:
 				res = "false"
+			case `it, _ := at.(*Input) ; if nn, _ := at.(*NonNull); nn != nil { it, _ = nn.Base.(*Input) } ; if it != nil { cp := make(map[string]interface{}, len(tv)) for k, v := range tv { var vt Type if f := it.fields.get(k); f != nil { vt = f.Type } cp[k], ea2 = root.replaceArgVars(vars, v, vt) ea = append(ea, ea2...) } if val, err = it.CoerceIn(cp); err != nil { ea = append(ea, resWarnp(nil, "%s", err)) } } else if ic, _ := at.(InCoercer); ic != nil { ` + coerce + ` }`:
+				res = "false" // and the literal is copied (D25 repaired: see argsInPlace)
 			}
 		}
 		return false
@@ -387,4 +392,48 @@ func eventVarsForm(c *ctx) string {
 		return "false"
 	}
 	return unknown("AddEvent variables", c.pos(ae))
+}
+
+// argsInPlaceForm: are the literals of the parsed request (and the values handed to Input.CoerceIn / List.CoerceIn)
+// updated in place (D25), or are new maps and lists built?  All four sites must agree.
+func argsInPlaceForm(c *ctx) string {
+	norm := func(name string) string {
+		fd := c.funcs[name]
+		if fd == nil {
+			return ""
+		}
+		t := regexp.MustCompile(`(?m)//.*$`).ReplaceAllString(c.src(fd.Body), "")
+		return regexp.MustCompile(`\s+`).ReplaceAllString(t, " ")
+	}
+	rav, in, li := norm("Root.replaceArgVars"), norm("Input.CoerceIn"), norm("List.CoerceIn")
+	if rav == "" || in == "" || li == "" {
+		return unknown("argsInPlace functions", "resolve.go")
+	}
+	inPlace := []bool{
+		strings.Contains(rav, "tv[k], ea2 = root.replaceArgVars(vars, v, vt)"),
+		strings.Contains(rav, "tv[i], ea2 = root.replaceArgVars(vars, v, mt)"),
+		!strings.Contains(in, "tv = cp v = cp"),
+		strings.Contains(li, "list[i] = cv"),
+	}
+	copied := []bool{
+		strings.Contains(rav, "cp := make(map[string]interface{}, len(tv))") && strings.Contains(rav, "cp[k], ea2 = root.replaceArgVars(vars, v, vt)") && strings.Contains(rav, "it.CoerceIn(cp)"),
+		strings.Contains(rav, "cp := make([]interface{}, len(tv))") && strings.Contains(rav, "cp[i], ea2 = root.replaceArgVars(vars, v, mt)") && strings.Contains(rav, "val = cp"),
+		strings.Contains(in, "} else { cp := make(map[string]interface{}, len(tv)) for k, fv := range tv { cp[k] = fv } tv = cp v = cp }"),
+		strings.Contains(li, "out := make([]interface{}, len(list))") && strings.Contains(li, "out[i] = cv") && strings.Contains(li, "return out, nil") && !strings.Contains(li, "list[i] = cv"),
+	}
+	all := func(bs []bool) bool {
+		for _, b := range bs {
+			if !b {
+				return false
+			}
+		}
+		return true
+	}
+	switch {
+	case all(inPlace) && !copied[0] && !copied[1] && !copied[3]:
+		return "true"
+	case all(copied) && !inPlace[0] && !inPlace[1] && !inPlace[3]:
+		return "false"
+	}
+	return unknown("argsInPlace mixed forms", "resolve.go")
 }
